@@ -201,3 +201,43 @@ fn c03_refused_commit_retry_same_entity() {
     kani::cover!(true);
     std::mem::forget(s);
 }
+
+//@ property: C03
+//@ tier: quick
+//@ cap_s: 900
+//@ mem_gb: 14
+//@ stubs: parking_lot slow paths, alloc::fmt::format
+//@ encodes: TransactionManager::{begin_with_isolation,commit,abort,abort_all_active,active_count,min_active_epoch,current_epoch,start_epoch,state,gc}
+//@ symbolic: whether T0 is aborted before the clean-up
+//@ bound: history  begin T0; begin T2; commit T2; begin T1; [abort T0]; gc; abort_all_active
+//@ oracle: the pinning horizon (min_active_epoch) is the smallest start epoch among ACTIVE transactions, or the current epoch when none is active; gc never removes an active transaction; abort_all_active leaves nothing active
+#[kani::proof]
+#[kani::unwind(5)]
+#[kani::stub(parking_lot::RawRwLock::lock_exclusive_slow, lk_slow)]
+#[kani::stub(parking_lot::RawRwLock::lock_shared_slow, lk_sh_slow)]
+#[kani::stub(parking_lot::RawRwLock::unlock_exclusive_slow, ulk_slow)]
+#[kani::stub(parking_lot::RawRwLock::unlock_shared_slow, ulk_sh_slow)]
+#[kani::stub(alloc::fmt::format, fmt_stub)]
+fn c03_pinning_horizon_and_abort_all() {
+    use grafeo_engine::transaction::{TransactionManager, TxState};
+    let mgr = TransactionManager::new();
+    let t0 = mgr.begin();
+    let t2 = mgr.begin();
+    let r = mgr.commit(t2); assert!(r.is_ok()); std::mem::forget(r);
+    let t1 = mgr.begin();
+    assert!(mgr.start_epoch(t0).map(|e| e.as_u64()) == Some(0) && mgr.start_epoch(t1).map(|e| e.as_u64()) == Some(1));
+    assert!(mgr.active_count() == 2 && mgr.min_active_epoch().as_u64() == 0);
+    let abort0: bool = kani::any();
+    if abort0 { let r = mgr.abort(t0); assert!(r.is_ok()); std::mem::forget(r); }
+    assert!(mgr.min_active_epoch().as_u64() == if abort0 { 1 } else { 0 });
+    let _ = mgr.gc();
+    assert!(mgr.state(t1) == Some(TxState::Active), "gc removed an active transaction");
+    if !abort0 { assert!(mgr.state(t0) == Some(TxState::Active)); }
+    mgr.abort_all_active();
+    assert!(mgr.active_count() == 0);
+    assert!(mgr.state(t1) == Some(TxState::Aborted));
+    assert!(mgr.min_active_epoch().as_u64() == mgr.current_epoch().as_u64());
+    kani::cover!(abort0);
+    kani::cover!(!abort0);
+    std::mem::forget(mgr);
+}
